@@ -19,5 +19,11 @@ def obligations(tier: str) -> list[Ob]:
             ],
             bounds={"components": "4 mutually referencing schemas incl. allOf parent declared after child: 6 (quick) / all 24 (thorough) declaration orders", "paths": "all 6 orders of 3 paths", "set orders": "6 (quick) / 24 (thorough) permutations"},
         ),
+        harness_ob(
+            "every_set_is_order_free", "C12_sets.py", tier, timeout=400 if q else 2400, cpus=2,
+            encoded=["openapi_python_client.parser.openapi:GeneratorData.from_dict", "openapi_python_client.parser.properties.model_property:_process_properties", "openapi_python_client.parser.properties:build_schemas", "openapi_python_client.parser.openapi:Endpoint.from_data"],
+            stubs=["every module of openapi_python_client.parser, utils and the package __init__ is compiled from a rewritten syntax tree: each set(...) call, set display, set comprehension and factory=set builds a PermSet", "vlib.permset: iteration order of every set the generator builds = permutation selected by one symbolic index (hash seed as a solver variable)", "templates are compiled once outside symbolic execution; union templates (jinja Namespace objects break under the tracer) are left to the replay oracle"],
+            bounds={"document": "8 components (allOf children that make 3 inherited optionals mandatory, recursive references, typed additionalProperties, enums) + 2 paths with 2 tags, 5 parameters, 2 request media types; both enum styles", "permutation index": "4 values (quick) / all 23 non-identity values below 4! (thorough)"},
+        ),
         Ob("replay_hashseed_and_shuffle", "vlib.replay_checks:determinism", {}, timeout_s=900 if q else 3000, engine="replay", cpus=2),
     ]
